@@ -175,7 +175,9 @@ def main():
                 except Exception as e:
                     mism.append(dict(where, kind='roundtrip-unsound', trip=name, real=repr(e)))
                     continue
-                if not shallow:
+                if not shallow and not (job.get('nofollow_py') and impl == 'py'):
+                    # (nofollow_py: in this process the copy of a Python tree is a C tree; after a split over a loose separator the
+                    #  two implementations differ in shape - finding D52 - so the twin comparison is left to the C side)
                     # fully usable: the rest of a behaviour continues identically on copy and original twin
                     twin = build(cls, ti)
                     for a in follow:
